@@ -1,3 +1,11 @@
+mod c40;
+mod c41;
+
+use pvkit::session::CheckDef;
+
 fn main() {
-    pvkit::main(&[]);
+    pvkit::main(&[
+        CheckDef { id: "C40", level: "exploration", run: c40::run },
+        CheckDef { id: "C41", level: "exploration", run: c41::run },
+    ]);
 }
